@@ -476,17 +476,36 @@ func (d *Driver) Check() int {
 			min = d.shrink(e, &exp, sig, &sstats)
 		}
 		min.Expect = sig
-		// confirm in a fresh process, twice
-		ok := 0
-		var last *Result
-		for i := 0; i < 2; i++ {
-			r, herr := d.RunScenario(min, []int{1, 4}[i])
-			if herr == "" && r != nil && r.Has(sig) {
-				ok++
-				last = r
+		// confirm in fresh processes. A deterministic violation reproduces every time; a data race is
+		// reported by the detector with high but not full probability per execution (bounded shadow
+		// history), so up to 5 attempts may be used to see it twice.
+		confirm := func(s *Scenario) (int, *Result) {
+			ok := 0
+			var last *Result
+			attempts := 2
+			if strings.HasPrefix(sig, "race:") {
+				attempts = 5
 			}
+			for i := 0; i < attempts && ok < 2; i++ {
+				r, herr := d.RunScenario(s, []int{1, 4, 2, 16, 2}[i])
+				if herr == "" && r != nil && r.Has(sig) {
+					ok++
+					last = r
+				}
+			}
+			return ok, last
+		}
+		ok, last := confirm(min)
+		if ok < 2 && min != &exp {
+			// the minimised scenario is not stable: fall back to the scenario as found
+			orig := *sc
+			orig.Expect = sig
+			min = &orig
+			ok, last = confirm(min)
 		}
 		if ok < 2 {
+			ub, _ := json.MarshalIndent(min, "", " ")
+			os.WriteFile(filepath.Join(d.Home, "replays", fmt.Sprintf("unreproduced-%s-%d.json", d.Prop, k)), ub, 0o644)
 			fmt.Fprintf(os.Stderr, "verif: violation %q found in run %d did not reproduce on replay (%d/2): harness trouble, no verdict\n", sig, f.firstIdx, ok)
 			return 2
 		}
@@ -560,8 +579,8 @@ func (d *Driver) determinismSample(e Engine, n, done int) (int, string) {
 				r := resps[0].Result
 				var ss []string
 				for _, s := range r.Sigs() {
-					if strings.HasPrefix(s, "race:") {
-						s = "race" // which access pair the detector reports for one race varies
+					if strings.HasPrefix(s, "race:") || strings.HasSuffix(s, ":race") {
+						continue // whether and with which access pair the detector reports a race varies per execution
 					}
 					ss = append(ss, s)
 				}
